@@ -5,6 +5,7 @@
 
    Events  (T.ev[l], field e):
      "tx"   one USB transfer: f = frame written, o = outcome "A"|"U"|"L", rep = bytes read back,
+            d = milliseconds of (virtual) time the exchange with the dongle took,
             st = <<_curr_up, _curr_down, _has_safelink (0/1), _retry_before_disconnect,
                    link.needs_resending (0/1)>> of the driver at that moment
      "in"   the radio loop put the packet p into in_queue       "og"  it took p (or <<>>) from out_queue
@@ -31,12 +32,13 @@ VARIABLES tid, l,
           mh, mpeer, dataPhase, tail, nIn, nRcv, bad, badAt, mach,       \* monitor
           conf, confAt, errOwed,                                         \* conformance
           retries, negAtt, pc, sp, nPause, negLeft, hasSL, hUp, hDown, frame, retryLeft, pend, outQ, inQ,
-          needsRes, peer, nSub, nQ, lossLeft, negLossLeft, h             \* design-spec variables
+          needsRes, peer, nSub, nQ, lossLeft, negLossLeft, usb, h        \* design-spec variables
 
 T == Traces[tid]
 \* constants of Safelink that its actions do not use
 NUp == 0
 MaxRestarts == 0
+MaxSlow == 0
 NDown == 0
 Retries == 0
 NegAttempts == 0
@@ -51,7 +53,7 @@ D == INSTANCE Safelink
 P == INSTANCE SafelinkProps
 
 specvars == <<retries, negAtt, pc, sp, nPause, negLeft, hasSL, hUp, hDown, frame, retryLeft, pend, outQ, inQ,
-              needsRes, peer, nSub, nQ, lossLeft, negLossLeft, h>>
+              needsRes, peer, nSub, nQ, lossLeft, negLossLeft, usb, h>>
 monvars == <<mh, mpeer, dataPhase, tail, nIn, nRcv>>
 Ev == T.ev[l]
 
@@ -65,6 +67,7 @@ Init == /\ tid \in 1..Len(Traces)
         /\ D!InitWith(Traces[tid].retries, Traces[tid].negatt, Traces[tid].mode,
                       Traces[tid].tail, Traces[tid].deny)
         /\ lossLeft = 1000000 /\ negLossLeft = 1000000
+        /\ usb = [stale |-> <<>>, slowLeft |-> 1000000]
 
 Conform(A) == IF conf /\ ENABLED A
               THEN A /\ UNCHANGED <<conf, confAt>>
@@ -101,7 +104,7 @@ MTx ==
           /\ Judge(hn)
           /\ IF startup
              THEN Conform(D!NegTx(Ev.o) /\ StOK /\ Ev.f = P!NegFrame) /\ UNCHANGED errOwed
-             ELSE /\ Conform(D!DataTx(Ev.o) /\ StOK /\ D!Wire = Ev.f /\ ~errOwed)
+             ELSE /\ Conform(D!DataTx(Ev.o, Ev.d > 1000) /\ StOK /\ D!Wire = Ev.f /\ ~errOwed)
                   /\ errOwed' = (conf' /\ h'.link # <<>> /\ h'.link[Len(h'.link)] = "E")
     /\ UNCHANGED <<nIn, nRcv>>
 
